@@ -27,6 +27,11 @@ pub enum OpKind {
     /// each block by bisection over first words (boundaries verified locally, interior sampled) and compare sizes.
     /// `targets`: offsets k (value = low + k) as width-byte little-endian numbers
     SpanProbe { low: Vec<u8>, high: Vec<u8>, inclusive: bool, via: u8, targets: Vec<Vec<u8>> },
+    /// value census: `samples` calls on fresh uniform words over a range of at most 256 values; every value must turn
+    /// up, and none absurdly often (bounds chosen so that a sampler with equal preimage counts fails with
+    /// probability < 1e-15). Catches values that are unreachable, or grossly over-represented, at widths and
+    /// quotients where neither a sweep, the preimage bound nor a walk can count anything.
+    Census { low: Vec<u8>, high: Vec<u8>, inclusive: bool, via: u8, samples: u32 },
 }
 
 #[derive(Clone, Debug, PartialEq)]
@@ -40,6 +45,13 @@ pub struct Op {
     pub shape: u8,
 }
 
+/// one logical caller of the interleaved-tasks mode: its own type, its own ops and its own scripted RNG
+#[derive(Clone, Debug, PartialEq)]
+pub struct Task {
+    pub ty: String,
+    pub ops: Vec<Op>,
+}
+
 #[derive(Clone, Debug, PartialEq)]
 pub struct RunSpec {
     pub seed: u64,
@@ -50,8 +62,14 @@ pub struct RunSpec {
     /// the error code every injected RNG error of this run carries (rand::Error::code / raw_os_error)
     pub err_code: u32,
     pub ops: Vec<Op>,
-    /// generator's label: 0 mixed, 1 cluster, 2 fault-free twin, 3 fibre walk, 4 span probe
+    /// generator's label: 0 mixed, 1 cluster, 2 fault-free twin, 3 fibre walk, 4 span probe, 5 census, 6 tasks
     pub mode: u8,
+    /// interleaved-tasks mode (mode 6; `ops` is empty then): several logical callers, each with its own scripted RNG,
+    /// run once one after the other and once interleaved at every seam crossing as `schedule` dictates
+    pub tasks: Vec<Task>,
+    /// at the k-th scheduling point the task that runs next is `runnable[schedule[k] % runnable.len()]`; when the
+    /// list is exhausted the task holding the baton keeps it
+    pub schedule: Vec<u8>,
 }
 
 fn plan_j(p: &Plan) -> J {
@@ -119,6 +137,7 @@ impl Op {
             OpKind::FillVsElem { .. } => "fill_vs_elementwise",
             OpKind::FibreWalk { .. } => "fibre_walk",
             OpKind::SpanProbe { .. } => "span_probe",
+            OpKind::Census { .. } => "census",
         }
     }
     pub fn to_json(&self) -> J {
@@ -158,6 +177,13 @@ impl Op {
                 o.put("inclusive", J::Bool(*inclusive));
                 o.put("via", J::s(["gen_range", "sample_single", "uniform_sample"][*via as usize % 3]));
                 o.put("target_offsets", J::Arr(targets.iter().map(|t| J::Str(hex(t))).collect()));
+            }
+            OpKind::Census { low, high, inclusive, via, samples } => {
+                o.put("low", J::Str(hex(low)));
+                o.put("high", J::Str(hex(high)));
+                o.put("inclusive", J::Bool(*inclusive));
+                o.put("via", J::s(["gen_range", "sample_single", "uniform_sample"][*via as usize % 3]));
+                o.put("samples", J::Int(*samples as i128));
             }
             OpKind::FibreWalk { low, high, inclusive, via, start, up, fibres, max_steps } => {
                 o.put("low", J::Str(hex(low)));
@@ -202,6 +228,11 @@ impl Op {
                 }
                 OpKind::SpanProbe { low: hx("low")?, high: hx("high")?, inclusive: bl("inclusive")?, via, targets }
             }
+            "census" => {
+                let v = j.get("via").and_then(|x| x.str()).ok_or("via")?;
+                let via = ["gen_range", "sample_single", "uniform_sample"].iter().position(|x| *x == v).ok_or("bad via")? as u8;
+                OpKind::Census { low: hx("low")?, high: hx("high")?, inclusive: bl("inclusive")?, via, samples: j.get("samples").and_then(|x| x.int()).ok_or("samples")? as u32 }
+            }
             "fibre_walk" => {
                 let v = j.get("via").and_then(|x| x.str()).ok_or("via")?;
                 let via = ["gen_range", "sample_single", "uniform_sample"].iter().position(|x| *x == v).ok_or("bad via")? as u8;
@@ -242,13 +273,28 @@ impl RunSpec {
             .set("rng_error_code", J::Int(self.err_code as i128))
             .set("mode", J::i(self.mode as i64))
             .set("ops", J::Arr(self.ops.iter().map(|o| o.to_json()).collect()))
+            .set("tasks", J::Arr(self.tasks.iter().map(|t| J::obj().set("type", J::s(&t.ty)).set("ops", J::Arr(t.ops.iter().map(|o| o.to_json()).collect()))).collect()))
+            .set("schedule", J::Arr(self.schedule.iter().map(|x| J::i(*x as i64)).collect()))
     }
     pub fn from_json(j: &J) -> Result<RunSpec, String> {
         let mut ops = Vec::new();
         for o in j.get("ops").and_then(|x| x.arr()).ok_or("ops")? {
             ops.push(Op::from_json(o)?);
         }
+        let mut tasks = Vec::new();
+        if let Some(ts) = j.get("tasks").and_then(|x| x.arr()) {
+            for t in ts {
+                let mut tops = Vec::new();
+                for o in t.get("ops").and_then(|x| x.arr()).ok_or("task ops")? {
+                    tops.push(Op::from_json(o)?);
+                }
+                tasks.push(Task { ty: t.get("type").and_then(|x| x.str()).ok_or("task type")?.to_string(), ops: tops });
+            }
+        }
+        let schedule: Vec<u8> = j.get("schedule").and_then(|x| x.arr()).map(|a| a.iter().filter_map(|x| x.int()).map(|x| x as u8).collect()).unwrap_or_default();
         Ok(RunSpec {
+            tasks,
+            schedule,
             seed: j.get("seed").and_then(|x| x.int()).unwrap_or(0) as u64,
             run: j.get("run").and_then(|x| x.int()).unwrap_or(0) as u64,
             ty: j.get("type").and_then(|x| x.str()).ok_or("type")?.to_string(),
